@@ -93,10 +93,10 @@ def count_arrays_N4(rng):
 
 
 def _samples(rng, lo=2):
-    strs = ["A", "B", "C", "AB"]
+    strs = ["A", "B", "AB", "ABC"]
     for kind in ("list", "ndarray"):
-        for n in range(lo, 5):
-            for xs in itertools.product(strs[:3], repeat=n):
+        for n in range(lo, 4):
+            for xs in itertools.product(strs, repeat=n):
                 yield seq([S(x) for x in xs], kind)
     for n in range(lo, 5):
         for xs in itertools.product([1, 2, 3], repeat=n):
@@ -109,10 +109,19 @@ def samples(rng):
     for a in firsts:
         yield {"array": a, "array2": NONE}
     seconds = list(_samples(rng, 1))
-    for _ in range(4000):
+    cells = ["A", "B", "AB", ""]
+    for _ in range(1500):
         a = rng.choice(firsts)
         b = rng.choice([s for s in seconds if (s["items"][0]["t"] == a["items"][0]["t"])])
         yield {"array": a, "array2": b}
+        ncol = rng.randint(1, 3)
+        t1 = table({f"c{k}": [rng.choice(cells) for _ in range(rng.randint(2, 4))] * 1 for k in range(ncol)})
+        n1 = min(len(v) for v in t1["columns"].values())
+        t1 = table({k: v[:n1] for k, v in t1["columns"].items()})
+        yield {"array": t1, "array2": NONE}
+        if ncol == 2:
+            t2 = table({k: [rng.choice(cells) for _ in range(2)] for k in t1["columns"]})
+            yield {"array": t1, "array2": t2}
 
 
 @scope("containers")
